@@ -70,7 +70,7 @@ Closure(docs, s) ==
 Rooted(docs) == Closure(docs, RootNotes(docs))
 
 ExplainLib(e, ideal, devs) ==
-    IF e.ev # "Lib" THEN [bad |-> ideal, ids |-> {}]
+    IF e.ev # "Lib" \/ ~e.answered THEN [bad |-> ideal, ids |-> {}]
     ELSE
     LET docs == DocsOf(e)
         d1 == "F-C05-1" \in devs
